@@ -269,6 +269,17 @@ def check_commit_size(cfg, w, rep, lf):
         rep.ob(cfg, "commit-size", key, "at the insert call of `%s` the size is Some: declared, or set to the byte counter" % short(lf.path))
 
 
+def _is_rec_field(w, tm, rt, nm, payload=False):
+    """`tm` is field `nm` of a validated record: the field abstraction, or a record taken out of the bucket reader's stream
+    (`for r in records.into_iter().rev()` → next() → Some.0 → .nm) with the field as the last step of its access path."""
+    if tm[0] == "field" and tm[1] == rt and tm[2] == nm and (payload or not tm[3]):
+        return True
+    pth = [e for e in tm[3] if not (payload and e[0] in ("v",) or (payload and e == ("f", "0")))] if tm[0] == "call" else []
+    if pth and pth[-1][0] == "f" and pth[-1][1] == nm and (len(pth[-1]) < 3 or pth[-1][2] == rt):
+        return any(st[0] == "call" and st[1] in w.roles.bucket_readers for st in walk(tm))
+    return False
+
+
 def check_metadata_agg(cfg, w, rep, b, blk, s, rt):
     prog = w.prog
     lf = prog.owner_fn(b)
@@ -278,16 +289,14 @@ def check_metadata_agg(cfg, w, rep, b, blk, s, rt):
     for nm, op in zip(names, s.rv.ops):
         tm = w.sym.of_operand(b, op)
         if nm == "integrity":
-            good = tm[0] == "call" and tm[1] == "core::str::<impl str>::parse" and tm[2] and \
-                tm[2][0][0] == "field" and tm[2][0][1] == rt and tm[2][0][2] == "integrity"
+            good = tm[0] == "call" and tm[1] == "core::str::<impl str>::parse" and tm[2] and _is_rec_field(w, tm[2][0], rt, "integrity", payload=True)
             # allow `.ok()?` wrapper: parse(...).ok() then Try
             if not good:
                 for st in walk(tm):
-                    if st[0] == "call" and st[1] == "core::str::<impl str>::parse" and st[2] and st[2][0][0] == "field" and \
-                            st[2][0][1] == rt and st[2][0][2] == "integrity":
+                    if st[0] == "call" and st[1] == "core::str::<impl str>::parse" and st[2] and _is_rec_field(w, st[2][0], rt, "integrity", payload=True):
                         good = True
         else:
-            good = tm[0] == "field" and tm[1] == rt and tm[2] == nm and not tm[3]
+            good = _is_rec_field(w, tm, rt, nm)
         if good:
             rep.ob(cfg, "read-side", "%s.%s" % (key, nm), "Metadata.%s ← record.%s" % (nm, nm))
         else:
